@@ -118,9 +118,13 @@ structure Inv (c : Conf) (s : State) : Prop where
   idLt : ∀ l ∈ s.leases, l.id < s.nextId
   disk : ∀ d, s.disk = some d → DiskOK c d
 
-/-- The file lists exactly the table (in the order `writeDB` gives it). -/
+/-- The file lists exactly the leases of the table, each once (in whatever
+order: `writeDB`'s `slices.SortFunc` is not stable beyond 12 records). -/
 def Mirror (s : State) : Prop :=
-  s.disk = some (sortByHost (s.leases.map Lease.toDisk)) ∨ (s.disk = none ∧ s.leases = [])
+  (∃ d, s.disk = some d ∧ d.Perm (s.leases.map Lease.toDisk)) ∨ (s.disk = none ∧ s.leases = [])
+
+theorem Mirror_of_eq {s : State} (h : s.disk = some (sortByHost (s.leases.map Lease.toDisk))) : Mirror s :=
+  .inl ⟨_, h, sortByHost_perm _⟩
 
 theorem Inv_init (c : Conf) : Inv c State.init := by
   constructor <;> simp [State.init]
@@ -163,7 +167,7 @@ theorem Inv_store {c : Conf} {s : State} (h : Inv c s) : Inv c s.store := by
     rcases List.mem_map.1 (hp.mem_iff.1 hx) with ⟨l, hl, rfl⟩
     exact h.dynPool l hl (by simpa [Lease.toDisk] using hs)
 
-theorem Mirror_store (s : State) : Mirror s.store := .inl rfl
+theorem Mirror_store (s : State) : Mirror s.store := Mirror_of_eq rfl
 
 /-- Fields the invariant does not read. -/
 theorem Inv_congr {c : Conf} {s s' : State} (h : Inv c s)
@@ -180,5 +184,42 @@ theorem Inv_congr {c : Conf} {s s' : State} (h : Inv c s)
   · rw [h1]; exact h.idNodup
   · rw [h1, h5]; exact h.idLt
   · rw [h6]; exact h.disk
+
+theorem reorderDisk_spec (d : List DLease) (s : State) :
+    (reorderDisk d s).leases = s.leases ∧ (reorderDisk d s).bits = s.bits ∧ (reorderDisk d s).ips = s.ips ∧
+    (reorderDisk d s).hosts = s.hosts ∧ (reorderDisk d s).nextId = s.nextId ∧ (reorderDisk d s).now = s.now ∧
+    ((reorderDisk d s).disk = s.disk ∨ ∃ d0, s.disk = some d0 ∧ (reorderDisk d s).disk = some d ∧ d.Perm d0) := by
+  unfold reorderDisk
+  cases hd : s.disk with
+  | none => exact ⟨rfl, rfl, rfl, rfl, rfl, rfl, .inl hd⟩
+  | some d0 =>
+    simp only []
+    split
+    · next hc =>
+      simp only [Bool.and_eq_true] at hc
+      exact ⟨rfl, rfl, rfl, rfl, rfl, rfl, .inr ⟨d0, rfl, rfl, List.isPerm_iff.1 hc.1⟩⟩
+    · exact ⟨rfl, rfl, rfl, rfl, rfl, rfl, .inl hd⟩
+
+theorem Mirror_reorder {s : State} (d : List DLease) (h : Mirror s) : Mirror (reorderDisk d s) := by
+  obtain ⟨h1, _, _, _, _, _, h7⟩ := reorderDisk_spec d s
+  rcases h7 with h7 | ⟨d0, hd0, hd, hp⟩
+  · unfold Mirror; rw [h1, h7]; exact h
+  · rcases h with ⟨d', hd', hp'⟩ | ⟨hn, _⟩
+    · rw [hd0] at hd'; cases hd'
+      exact .inl ⟨d, hd, by rw [h1]; exact hp.trans hp'⟩
+    · rw [hd0] at hn; cases hn
+
+theorem Inv_reorder {c : Conf} {s : State} (d : List DLease) (h : Inv c s) : Inv c (reorderDisk d s) := by
+  obtain ⟨h1, h2, h3, h4, h5, _, h7⟩ := reorderDisk_spec d s
+  rcases h7 with h7 | ⟨d0, hd0, hd, hp⟩
+  · exact Inv_congr h h1 h2 h3 h4 h5 h7
+  · have hi : Inv c { reorderDisk d s with disk := s.disk } := Inv_congr h h1 h2 h3 h4 h5 rfl
+    refine { hi with disk := ?_ }
+    intro d' hd'
+    rw [hd] at hd'; cases hd'
+    obtain ⟨a, b, e⟩ := h.disk d0 hd0
+    refine ⟨(hp.map _).nodup_iff.2 a, (hp.map _).nodup_iff.2 b, ?_⟩
+    intro x hx
+    exact e x (hp.mem_iff.1 hx)
 
 end AGH.C10
